@@ -25,9 +25,9 @@ VOCABS = {
 IDS = ['a', 'b', 'c', 'd', 'e']
 
 
-def build_nx(n, classes, edges, gid_salt=''):
+def build_nx(n, classes, edges, gid_salt='', order=None):
     g = nx.Graph()
-    for i in range(n):
+    for i in (order if order is not None else range(n)):
         g.add_node(f'k{i}{gid_salt}', NodeID=IDS[i], Class=classes[i], Name=f'n{IDS[i]}', Type='t')
     for (i, j), r in edges.items():
         if r:
@@ -36,6 +36,7 @@ def build_nx(n, classes, edges, gid_salt=''):
 
 
 DIRECTED_UP_TO = 3
+REIMPORT_UP_TO = 3
 
 
 def directed_graphml(n, classes, edges, gid):
@@ -145,7 +146,20 @@ def eval_graph(case):
             # the same graph arriving as a directed GraphML document through the id-keeping import
             graphs[flavour + '/directed-import'] = imp.import_graph_from_string_direct(graph_string=directed_graphml(n, classes, edges, 'GD'))
 
-    for flavour, g in graphs.items():
+    def passes():
+        for fl_, g_ in graphs.items():
+            yield fl_, g_
+        if n <= REIMPORT_UP_TO:
+            # history: the graph is deleted and imported again under the same id, its nodes in another order (so the store
+            # numbers them differently); the handle that answered all queries above is asked again
+            for fl_ in ('shared', 'disjoint'):
+                old = graphs[fl_]
+                text = '\n'.join(nx.generate_graphml(build_nx(n, classes, edges, order=list(range(n))[::-1])))
+                old.importer.delete_graph(graph_id='G')
+                old.importer.import_graph_from_string(graph_string=text, graph_id='G')
+                yield fl_ + '/reimported-old-handle', old
+
+    for flavour, g in passes():
         def call(q, fn, **kw):
             try:
                 return True, fn(**kw)
@@ -365,6 +379,8 @@ def all_graphs(vocab, n, max_edges=None, sorted_classes=False):
 def run(report):
     global DIRECTED_UP_TO
     DIRECTED_UP_TO = 2 if report.tier == "quick" else 5
+    global REIMPORT_UP_TO
+    REIMPORT_UP_TO = 3 if report.tier == "quick" else 4
     cases = []
     if report.tier == 'quick':
         for vocab in ('ns-cp', 'cp-link', 'node-comp'):
